@@ -530,6 +530,9 @@ class SpecMixin:
             return st.ghost[args[0].x] if args[0].x in st.ghost else ctx.pre.ghost[args[0].x]
         if f == "mem":          # mem(setvalue, key) for ghost sets (Array K->Bool)
             return mk_bool(z3.Select(args[0].z, args[1].z))
+        r = self.dt_spec(f, args) if hasattr(self, "dt_spec") else None
+        if r is not None:
+            return r
         raise Unsupported("spec function %s" % f)
 
 
